@@ -248,6 +248,12 @@ fn one_run(args: &Args, rng: &mut Rng, run: u64) -> (Vec<vcore::trace::Item>, se
     // end of run: every remaining connection ends one way or another, then idle shutdown
     for i in 0..w.conns.len() {
         if !ended[i] {
+            // a connection task that has already returned is left alone: if the broker still has it
+            // registered, that is for the observer to see
+            if matches!(w.exec.state(w.conns[i].task), TaskState::Done) {
+                ended[i] = true;
+                continue;
+            }
             match rng.below(3) {
                 0 => {
                     w.send(i, Shutdown.into());
